@@ -81,6 +81,16 @@ CLAIMED["C17"] = dict(
     note="Generator-ness of MULTIPLICATIVE_GENERATOR is checked as: quadratic non-residue with the derived root-of-unity relations (DESIGN.md 3/C17 L).",
     technique="property-based testing against a reference model / field axioms",
     design="3/C17")
+CLAIMED["C10"] = dict(
+    text="Metamorphic search over generated secrets: 24 operations not documented as variable-time run in release binaries WITHOUT hooks (five back ends quick; plus table-less builds thorough), once per secret (extreme nibble/byte patterns that drive table lookups to their ends plus proptest-generated structured secrets), under valgrind --tool=lackey --trace-mem=yes; the complete sequence of instruction addresses and load/store addresses+sizes between two marker stores must be byte-identical across all secrets of an (operation, back end) pair. A deliberately variable-time control operation must be seen to differ, otherwise the run is inconclusive (exit 2). Exploration level for this compiler's output.",
+    note="Valgrind 3.19 has no AVX-512: IFMA code is not traced (the dispatcher falls back to AVX2 under valgrind). Trace equality on sampled secrets is not a proof; timing channels that are neither control-flow nor address dependent are out of scope.",
+    technique="metamorphic testing on execution traces (valgrind lackey) over generated secrets",
+    design="3/C10")
+CLAIMED["C14"] = dict(
+    text="Generated create-use-drop sequences and calls under an instrumenting global allocator: (i) the contents of every heap block freed during constant-time multiscalar_mul (Edwards/Ristretto, n = 1..40 quick / 300 thorough, serial and vector copies via forced dispatch) and Scalar::batch_invert must be identical for two different secret-scalar vectors and contain no 8-byte window of the scalars, their radix-16 digit strings or partial products; (ii) SigningKey, ExpandedSecretKey, Ephemeral/Reusable/StaticSecret, SharedSecret are built in storage the harness owns, used, drop_in_place'd, and the storage searched for secret windows; (iii) explicit zeroize() results. Exploration level.",
+    note="Stack copies and registers are outside the statement and not inspected. Secrets are generated without zero bytes so that 'still there' is distinguishable from 'zeroed'.",
+    technique="property-based testing with an instrumenting allocator (metamorphic: two secrets, same public inputs) and post-drop storage inspection",
+    design="3/C14")
 
 ALL = ["C%02d" % i for i in range(1, 18)]
 REASON_PENDING = "check not built yet (see DESIGN.md build order); not claimed"
